@@ -71,6 +71,9 @@ func main() {
 		rc := runDev(splitList(*files), *pkg, *run, *mode, *maxPaths, *fuel, *obligMs, parseParams(*params), *replay, *panicsOK, *wall)
 		pprof.StopCPUProfile()
 		os.Exit(rc)
+	case "selftest":
+		fs.Parse(os.Args[2:])
+		os.Exit(runSelftest())
 	case "replay":
 		file := fs.String("file", "", "replay file")
 		fs.Parse(os.Args[2:])
